@@ -60,12 +60,13 @@ def every_job_is_accounted_for(ctx):
     ctx.need(gets and heads, 'worker loop not recognised')
     ok = bool(nn) and not (g.reach(gets, avoid=nn, labels=g.NORMAL) & set(heads))
     ctx.ob(f, 'every job taken from the queue is counted with notify_job_complete', ok, 'a job that is not counted leaves the download waiting forever')
-    ctx.ob(f, 'notify_job_complete(job.transfer_id)', len(notes) == 1 and norm(notes[0].args[0]) == 'job.transfer_id', 'the job must be counted for its own transfer')
+    jn = (q.names_defined_by(f, lambda v: norm(v) == 'self._queue.get()') or ['job'])[0]
+    ctx.ob(f, 'notify_job_complete(job.transfer_id)', len(notes) == 1 and norm(notes[0].args[0]) == f'{jn}.transfer_id', 'the job must be counted for its own transfer')
     runs = [c for c in own_calls(f.node) if (dotted(c.func) or '') == 'self._run_get_object_job']
-    ok = len(runs) == 1 and q.guards_imply(q.guards(runs[0]), 'not self._transfer_monitor.get_exception(job.transfer_id)')
+    ok = len(runs) == 1 and norm(runs[0].args[0]) == jn and q.guards_imply(q.guards(runs[0]), f'not self._transfer_monitor.get_exception({jn}.transfer_id)')
     ctx.ob(f, 'job skipped when the transfer already has an exception', ok, 'a failed/cancelled download must stop fetching')
     rets = [x for x in own_nodes(f.node) if isinstance(x, ast.Return)]
-    ok = len(rets) == 1 and q.guards_imply(q.guards(rets[0]), 'job == SHUTDOWN_SIGNAL')
+    ok = len(rets) == 1 and q.guards_imply(q.guards(rets[0]), f'{jn} == SHUTDOWN_SIGNAL')
     ctx.ob(f, 'the loop ends only on the shutdown signal', ok, 'workers must keep serving until told to stop')
     r = ctx.func('processpool.GetObjectWorker._run_get_object_job')
     hs = [h for h in own_nodes(r.node) if isinstance(h, ast.ExceptHandler)]
@@ -83,11 +84,12 @@ def last_one_finalises(ctx):
     """_finalize_download runs exactly when the remaining count returned by
     notify_job_complete is zero; the count is decremented and returned under one lock."""
     f = ctx.func('processpool.GetObjectWorker._do_run')
+    jn = (q.names_defined_by(f, lambda v: norm(v) == 'self._queue.get()') or ['job'])[0]
     fin = [c for c in own_calls(f.node) if (dotted(c.func) or '') == 'self._finalize_download']
     rem = [st.targets[0].id for st in own_nodes(f.node) if isinstance(st, ast.Assign) and isinstance(st.value, ast.Call) and (dotted(st.value.func) or '').endswith('notify_job_complete')
            and isinstance(st.targets[0], ast.Name)]
     ok = len(fin) == 1 and len(rem) == 1 and q.guards_imply(q.guards(fin[0]), f'not {rem[0]}') and sum(1 for t, _ in q.guard_texts(fin[0]) if rem[0] in t) == 1 \
-        and [norm(a) for a in fin[0].args] == ['job.transfer_id', 'job.temp_filename', 'job.filename']
+        and [norm(a) for a in fin[0].args] == [f'{jn}.transfer_id', f'{jn}.temp_filename', f'{jn}.filename']
     ctx.ob(f, 'if not remaining: self._finalize_download(job.transfer_id, job.temp_filename, job.filename)', ok, 'the download must be finalised by (only) the worker that completes the last job')
     d = ctx.func('processpool.TransferState.decrement_jobs_to_complete')
     dec = [n for n in own_nodes(d.node) if isinstance(n, ast.AugAssign) and dotted(n.target) == 'self._jobs_to_complete' and isinstance(n.op, ast.Sub) and norm(n.value) == '1']
@@ -119,10 +121,12 @@ def submitter_failures_in_order(ctx):
         hn = [x for x in g.nodes if x.kind == 'handler' and x.ast is h]
         ok = bool(ne and nd) and g.all_dominate(ne, nd, g.NORMAL, entry=hn[0]) and g.must_pass(hn, nd, [x for x in g.nodes if x.kind == 'while'] + [g.exit], g.NORMAL)
         ctx.ob(f, 'handler: notify_exception(...) then notify_done(...)', ok, 'result() would return None (success) for a download that never started, or wait forever')
+        rq = (q.names_defined_by(f, lambda v: norm(v) == 'self._download_request_queue.get()') or ['download_file_request'])[0]
         ids = [norm(c.args[0]) for s in h.body for c in ast.walk(s) if isinstance(c, ast.Call) and (dotted(c.func) or '').split('.')[-1] in ('notify_exception', 'notify_done')]
-        ctx.ob(f, 'both notifications name download_file_request.transfer_id', ids == ['download_file_request.transfer_id'] * 2, f'{ids}')
+        ctx.ob(f, 'both notifications name download_file_request.transfer_id', ids == [f'{rq}.transfer_id'] * 2 and len(sub) == 1 and norm(sub[0].args[0]) == rq, f'{ids}')
+    rq = (q.names_defined_by(f, lambda v: norm(v) == 'self._download_request_queue.get()') or ['download_file_request'])[0]
     rets = [x for x in own_nodes(f.node) if isinstance(x, ast.Return)]
-    ctx.ob(f, 'submitter stops only on the shutdown signal', len(rets) == 1 and q.guards_imply(q.guards(rets[0]), 'download_file_request == SHUTDOWN_SIGNAL'), 'submitter loop exit changed')
+    ctx.ob(f, 'submitter stops only on the shutdown signal', len(rets) == 1 and q.guards_imply(q.guards(rets[0]), f'{rq} == SHUTDOWN_SIGNAL'), 'submitter loop exit changed')
 
 
 @rule('C19.f', ['C19'], floor=8)
@@ -168,7 +172,8 @@ def cancel_and_shutdown(ctx):
     g = ctx.cfg(f)
     w = [x for c in own_calls(f.node) if isinstance(c.func, ast.Attribute) and c.func.attr == 'wait_till_done' for x in g.nodes_of(c)]
     rs = [n for n in own_nodes(f.node) if isinstance(n, ast.Raise)]
-    ok = bool(w) and g.must_pass([g.entry], w, [g.exit], g.NORMAL) and bool(rs) and all(q.guards_imply(q.guards(r), 'exception') for r in rs) \
+    en = (q.names_defined_by(f, lambda v: norm(v).endswith('.exception')) or ['exception'])[0]
+    ok = bool(w) and g.must_pass([g.entry], w, [g.exit], g.NORMAL) and bool(rs) and all(q.guards_imply(q.guards(r), en) and norm(r.exc) == en for r in rs) \
         and g.all_dominate(w, [x for r in rs for x in g.nodes_of(r)], g.NORMAL)
     ctx.ob(f, 'poll_for_result: wait till done, then raise the recorded exception if any', ok, 'result() could return before the download finished or swallow the failure')
     f = ctx.func('processpool.ProcessPoolTransferFuture.result')
